@@ -156,7 +156,7 @@ theorem applyMatcher_kept (a : MatcherArgs) (t : Option TokObj) (toks : TokFn) (
   obtain ⟨kept, hs, hf⟩ := filterMap_kept (matcherTableSpec a t toks sim c l r) c.rows
   refine ⟨fr, kept, hfr, hcols, hs, ?_⟩
   rw [hrows]
-  exact hf.imp (fun cr row h => matcherTableSpec_some a t toks sim c l r hV.lKeyValid.1 hV.rKeyValid.1 cr row h)
+  exact hf.imp (fun cr row h => matcherTableSpec_some a t toks sim c l r hV.lKeyValid.nodup hV.rKeyValid.nodup cr row h)
 
 end SSJ
 
